@@ -461,67 +461,21 @@ impl Bmi2StringProcessor {
     #[cfg(target_arch = "x86_64")]
     #[target_feature(enable = "bmi1,bmi2")]
     unsafe fn extract_utf8_chars_bmi2_impl(&self, input: &[u8]) -> Result<Vec<u32>> {
-        let mut chars = Vec::new();
-        let mut i = 0;
-
-        while i < input.len() {
-            if i + 4 <= input.len() {
-                // Extract potential UTF-8 character using BEXTR
-                let char_bytes = unsafe { std::ptr::read_unaligned(input.as_ptr().add(i) as *const u32) };
-                
-                match self.decode_utf8_char_bmi2(char_bytes, &mut i) {
-                    Some(code_point) => chars.push(code_point),
-                    None => return Err(ZiporaError::invalid_data("Invalid UTF-8 character")),
-                }
-            } else {
-                // Handle remainder with scalar processing
-                let remainder = &input[i..];
-                match std::str::from_utf8(remainder) {
-                    Ok(s) => {
-                        chars.extend(s.chars().map(|c| c as u32));
-                        break;
-                    }
-                    Err(_) => return Err(ZiporaError::invalid_data("Invalid UTF-8 sequence")),
-                }
-            }
+        // Decoding must validate continuation bytes, overlong forms and surrogates: use the
+        // standard decoder (same verdict as the short-input fallback).
+        match std::str::from_utf8(input) {
+            Ok(s) => Ok(s.chars().map(|c| c as u32).collect()),
+            Err(_) => Err(ZiporaError::invalid_data("Invalid UTF-8 sequence")),
         }
-
-        Ok(chars)
     }
 
     #[cfg(target_arch = "x86_64")]
     #[target_feature(enable = "bmi1,bmi2")]
     unsafe fn utf8_to_utf16_bmi2_impl(&self, input: &[u8]) -> Result<Vec<u16>> {
-        let mut utf16_output = Vec::new();
-        let mut i = 0;
-
-        while i < input.len() {
-            if i + 4 <= input.len() {
-                // Extract UTF-8 character using BMI2
-                let char_bytes = unsafe { std::ptr::read_unaligned(input.as_ptr().add(i) as *const u32) };
-                
-                match self.decode_utf8_char_bmi2(char_bytes, &mut i) {
-                    Some(code_point) => {
-                        // Convert to UTF-16 using BMI2 operations
-                        let utf16_chars = self.encode_utf16_bmi2(code_point);
-                        utf16_output.extend_from_slice(&utf16_chars);
-                    }
-                    None => return Err(ZiporaError::invalid_data("Invalid UTF-8 character")),
-                }
-            } else {
-                // Handle remainder with scalar processing
-                let remainder = &input[i..];
-                match std::str::from_utf8(remainder) {
-                    Ok(s) => {
-                        utf16_output.extend(s.encode_utf16());
-                        break;
-                    }
-                    Err(_) => return Err(ZiporaError::invalid_data("Invalid UTF-8 sequence")),
-                }
-            }
+        match std::str::from_utf8(input) {
+            Ok(s) => Ok(s.encode_utf16().collect()),
+            Err(_) => Err(ZiporaError::invalid_data("Invalid UTF-8 sequence")),
         }
-
-        Ok(utf16_output)
     }
 
     #[cfg(target_arch = "x86_64")]
